@@ -48,9 +48,12 @@ MonUniqueNames == ~obs.dupl
 MonThreeViews == LET B == {n \in Names : obs.run[n] \in Builtin} IN B = obs.db /\ B = obs.adv
 MonRemovedStopsAccepting == obs.port \subseteq {n \in Names : obs.run[n] = "http"}
 MonEditApplies == last.op = "Serve" => obs.ok = last.ok
+(* the endpoint of an External listener: its own, or - added as "extsame" - the other name's *)
+Other(n) == CHOOSE m \in Names : m # n
+EpOf(n) == IF \E i \in 1..Len(hist) : hist[i].op = "Add" /\ hist[i].a = n /\ hist[i].b = "extsame" THEN Other(n) \o "-ep" ELSE n \o "-ep"
 MonOwnerScopedCleanup ==   \* registered = registered by connections that are still there (the model tracks owners from the calls)
     /\ obs.agents = Owned(sAgent) /\ obs.lsts = Owned(sLst) /\ obs.exc2 = Owned(sExc2)
-    /\ obs.eps = {x \o "-ep" : x \in Owned(sExc2)} \cup {n \o "-ep" : n \in {m \in Names : obs.run[m] = "ext"}}
+    /\ obs.eps = {x \o "-ep" : x \in Owned(sExc2)} \cup {EpOf(n) : n \in {m \in Names : obs.run[m] = "ext"}}
 MonKeepsRunning == obs.done
 (* C10 / C16: a restart loses no listener - not even one that could not bind while the teamserver started - and nothing of its
    configuration *)
